@@ -60,6 +60,7 @@ def cases(draw, tier):
         c["bwd"] = dict(c["fwd"])
     if root == "program":
         c["prog"] = draw(dsl.quant_programs())
+        c["nnroot"] = draw(st.integers(0, 4)) == 0  # the program behind an nn.Sequential root
     else:
         c["h"] = draw(st.sampled_from([2, 4, 8]))
         c["bias"] = draw(st.booleans())
@@ -98,11 +99,17 @@ def run(c) -> CaseResult:
     res = CaseResult()
     fwd, bwd = mk_fmt(c["fwd"]), mk_fmt(c["bwd"])
     torch.manual_seed(c["seed"])
+    nnroot = bool(c.get("nnroot"))
+
+    def call(mod, d):
+        return dsl.call(mod, c["prog"], d, nnroot) if c["root"] == "program" else mod(d["x"])
     if c["root"] == "program":
         prog = c["prog"]
         m = dsl.build_module(prog, c["seed"])
+        if nnroot:
+            m = dsl.nn_root(m)
         inputs = dsl.make_inputs(prog, c["seed"])
-        feats = spell_feature(prog)
+        feats = spell_feature(prog) + (["root=nn.Sequential(program)"] if nnroot else [])
         src = m._verif_source
 
         def reference(P, inp, mode):
@@ -152,7 +159,7 @@ def run(c) -> CaseResult:
         P = dict(qm.named_parameters())
         fl = prep(inputs)
         with patch("torch.randint", pinned):
-            y = qm(**fl) if c["root"] == "program" else qm(fl["x"])
+            y = call(qm, fl)
             up = torch.ones_like(y) if y.dim() == 0 else torch.randn(y.shape, generator=torch.Generator().manual_seed(c["seed"] + 1))
             diff = [fl[k] for k in FLOAT_INPUTS if k in fl] + list(P.values())
             g = torch.autograd.grad(y, diff, up, allow_unused=True)
@@ -178,7 +185,7 @@ def run(c) -> CaseResult:
     try:
         with patch("torch.randint", pinned), torch.no_grad():
             i1 = {k: v.clone() for k, v in inputs.items()}
-            y_ng = qm(**i1) if c["root"] == "program" else qm(i1["x"])
+            y_ng = call(qm, i1)
             yr_ng = reference(P, {k: v.clone() for k, v in inputs.items()}, mode)
         if not bitequal(y_ng, yr_ng):
             res.fail(f"C15.value.no_grad[{rtag}]", f"under torch.no_grad() the transformed module differs from the hand-quantised reference (fwd={fwd}, bwd={bwd})\n{src}")
@@ -188,7 +195,7 @@ def run(c) -> CaseResult:
     if lossless(c["fwd"]) and lossless(c["bwd"]) and c["via"] == "simulate_format":
         f0 = prep(inputs)
         P0 = dict(m.named_parameters())
-        y0 = m(**f0) if c["root"] == "program" else m(f0["x"])
+        y0 = call(m, f0)
         g0 = torch.autograd.grad(y0, [f0[k] for k in FLOAT_INPUTS if k in f0] + list(P0.values()), up, allow_unused=True)
         if not bitequal(y.detach(), y0.detach()) or not all(bitequal(a, b) for a, b in zip(g, g0)):
             res.fail("C15.lossless-not-identity", f"E8M23 simulation changed outputs or gradients\n{src}")
@@ -197,7 +204,7 @@ def run(c) -> CaseResult:
         qm2 = simulate_format(m, FPFormat(4, 3), FPFormat(5, 2))
         f2 = prep(inputs)
         with patch("torch.randint", pinned):
-            y2 = qm2(**f2) if c["root"] == "program" else qm2(f2["x"])
+            y2 = call(qm2, f2)
             g2 = torch.autograd.grad(y2, [f2[k] for k in FLOAT_INPUTS if k in f2] + list(qm2.parameters()), up, allow_unused=True)
         if not bitequal(y.detach(), y2.detach()) or not all(bitequal(a, b) for a, b in zip(g, g2)):
             res.fail("C15.simulate_fp8-instance", "simulate_fp8(m) differs from simulate_format(m, FPFormat(4,3), FPFormat(5,2))")
@@ -210,7 +217,7 @@ def run(c) -> CaseResult:
                 captured.append(copy.deepcopy(gm))
                 return gm
             probe = apply_transform(m, rec)
-            probe(**inputs)
+            call(probe, inputs)
             if len(captured) == 1:
                 before = collections.Counter(str(n.target) for n in captured[0].graph.nodes if n.op in ("call_function", "call_method"))
                 gm2 = qm.backends[-1](captured[0], [])
